@@ -56,6 +56,10 @@ type faultServer struct {
 
 	winMu  sync.Mutex
 	winner *faultStream // the stream whose announcement was last answered with its own id (the primary)
+
+	// nonprimary: the injected announcement and the re-stamped request that follows it are one step of the faulty
+	// server: no other session's pair may come between them (otherwise the fault shows or not by scheduling)
+	pairMu sync.Mutex
 }
 
 func (f *faultServer) setWinner(st *faultStream) { f.winMu.Lock(); f.winner = st; f.winMu.Unlock() }
@@ -66,7 +70,13 @@ func (f *faultServer) isWinner(st *faultStream) bool {
 }
 
 func (f *faultServer) Modify(ms spb.GRIBI_ModifyServer) error {
-	return f.s.Modify(&faultStream{GRIBI_ModifyServer: ms, f: f, failIDs: map[uint64]bool{}})
+	st := &faultStream{GRIBI_ModifyServer: ms, f: f, failIDs: map[uint64]bool{}}
+	defer func() {
+		if st.pair.Swap(0) != 0 {
+			f.pairMu.Unlock()
+		}
+	}()
+	return f.s.Modify(st)
 }
 
 func (f *faultServer) Get(req *spb.GetRequest, gs spb.GRIBI_GetServer) error {
@@ -141,6 +151,7 @@ type faultStream struct {
 	seenParams bool
 
 	swallow atomic.Int32 // election responses caused by injected announcements, still to be dropped
+	pair    atomic.Int32 // nonprimary: 1 = announcement injected (pairMu held), 2 = re-stamped request handed to the server
 	failMu  sync.Mutex
 	failIDs map[uint64]bool // fail_idem_delete: DELETEs of missing entries; omit_fib_for_deletes_only: every DELETE
 
@@ -180,9 +191,14 @@ func (st *faultStream) rawSend(r *spb.ModifyResponse) error {
 
 func (st *faultStream) Recv() (*spb.ModifyRequest, error) {
 	for {
+		if st.pair.CompareAndSwap(2, 0) {
+			// the server asks for the next message: it has handled the re-stamped request
+			st.f.pairMu.Unlock()
+		}
 		if st.queued != nil {
 			m := st.queued
 			st.queued = nil
+			st.pair.CompareAndSwap(1, 2)
 			return m, nil
 		}
 		m, err := st.GRIBI_ModifyServer.Recv()
@@ -232,6 +248,8 @@ func (st *faultStream) Recv() (*spb.ModifyRequest, error) {
 					}
 					st.queued = m2
 					st.swallow.Add(1)
+					st.f.pairMu.Lock()
+					st.pair.Store(1)
 					return &spb.ModifyRequest{ElectionId: proto.Clone(cur).(*spb.Uint128)}, nil
 				}
 			}
